@@ -1607,7 +1607,7 @@ func RunC04Plain(ctx *core.Ctx) {
 	plainKinds := []c4kind{c4Bool, c4Int32, c4Int64, c4Int96, c4Float, c4Double, c4Bytes, c4FLBA(1), c4FLBA(2), c4FLBA(3), c4FLBA(5), c4FLBA(12), c4FLBA(16), c4FLBA(17), c4FLBA(33)}
 	bssKinds := []c4kind{c4Int32, c4Int64, c4Float, c4Double, c4FLBA(1), c4FLBA(2), c4FLBA(3), c4FLBA(4), c4FLBA(5), c4FLBA(7), c4FLBA(8), c4FLBA(12), c4FLBA(16), c4FLBA(17), c4FLBA(33)}
 	dictTypes := c4DictTypes()
-	perKind := ctx.Scale(2600, 4000) // cases per (encoding, type) for the numeric kinds, summed over workers
+	perKind := ctx.Scale(2600, 3200) // cases per (encoding, type) for the numeric kinds, summed over workers
 	maxLen := ctx.Scale(1100, 1600)
 
 	// corpus first (one worker), then the deterministic probes
@@ -1696,7 +1696,7 @@ func RunC04Plain(ctx *core.Ctx) {
 			}
 			lap("bools")
 			// malformed BYTE_ARRAY streams
-			for i := 0; i < share(ctx.Scale(6000, 30000)); i++ {
+			for i := 0; i < share(ctx.Scale(6000, 20000)); i++ {
 				s, origin := w.malformedGen()
 				w.malformedCase(s, origin)
 			}
@@ -1718,7 +1718,7 @@ func RunC04Plain(ctx *core.Ctx) {
 			lap("decoders")
 			// dictionaries
 			for _, t := range dictTypes {
-				for i := 0; i < share(ctx.Scale(1200, 3000)); i++ {
+				for i := 0; i < share(ctx.Scale(1200, 2000)); i++ {
 					c := w.dictGen(t, ctx.Scale(2600, 4000))
 					if wi == 0 && i == 0 {
 						ctx.Sample(map[string]any{"dictionary": c4short(c.canon())})
